@@ -15,13 +15,19 @@ import common
 
 P = ""
 THEOREMS = [P + t for t in ["C17_unknown", "C17_malformed_number", "C17_malformed_number_old_witness", "C17_bool", "C17_constraint",
-                            "C17_expr", "C17_size", "C17_box", "C17_compile", "C17_exit"]]
-MODULES = ["Sympler.Validate", "Sympler.ValidateLemmas", "Props.C17"]
+                            "C17_expr", "C17_size", "C17_box", "C17_compile", "C17_exit", "C17_conversion_sites_strict"]]
+MODULES = ["Sympler.Validate", "Sympler.ValidateLemmas", "Sympler.Gen.ValidateGen", "Props.C17"]
 
 
 def run(ctx):
     ok, out = common.ensure_build("hooks", targets=("sympler",))
     ctx.oblige("hooked build of /repo", ok, out[-300:])
+    try:
+        import t_validate
+        common.write_if_changed(os.path.join(common.LEAN, "Sympler/Gen/ValidateGen.lean"), t_validate.generate(common.REPO))
+        ctx.oblige("translator t_validate (conversion call sites of PropertyList::fromXML, strictness of the called functions)", True)
+    except Exception as ex:
+        ctx.oblige("translator t_validate (conversion call sites of PropertyList::fromXML, strictness of the called functions)", False, repr(ex))
     common.lean_obligations(ctx, ["Sympler.Validate", "Props.C17", "symdrv"], ["Props.C17"], THEOREMS, MODULES)
     known = [f["signature"] for f in common.known_findings().get("open", []) if f.get("property") == "C17"]
     nmut = 0          # 0 = all single mutants
